@@ -14,6 +14,7 @@ CONSTANTS
   Days = {1}
   Shifts = {0}
   WithNoSent = FALSE
+  WithRecent = TRUE
   Fields = {}
   Tokens = {}
   LeafOps = {"SEEN", "DELETED", "SEQ", "UID"}
@@ -23,7 +24,7 @@ CONSTANTS
   HdrKeys = {}
   SeqSets <- SmallSeqSets
   UidSets <- SmallUidSets
-  DateModes = {"written"}
+  DateModes = {"ww"}
   Devs = {"BodyKeyMatchesHeaders", "UidSearchSeqSetAsUid", "DoubleNotRejected"}
   NumMb = 0
   NumLeaf = 0
